@@ -1,6 +1,6 @@
 #!/usr/bin/env python3
 """C12 sorted sets: B1 tours of MC_Zset (options/ties) and MC_ZsetDeep (AVL shapes) + B2; the walker evaluates the AVL/dict/len invariants on the implementation after every edge."""
-import common, ks
+import common, ks, sched
 tier = common.tier_arg()
 LABELS = ('zadd', 'zrem', 'zrange', 'zrank')
 ks.family_check(
@@ -9,4 +9,4 @@ ks.family_check(
     b2_families=['zset', 'zsetdeep'],
     level_text="", assumptions=['reference semantics = Redis command reference as transcribed in spec/KsZset.tla', 'order among equal scores is left open (zwin patterns, rank ranges)', 'scores on the exactly-representable decimal subset plus +-inf', 'structural invariants (BST order, |balance|<=1, stored heights, len, dict<->names) are evaluated in harness/canon/state.go on memdb.VerifDump after every B1 edge'],
     b2_progs=400 if tier == "quick" else 6000,
-    label_filter=lambda b: b.split(".")[0] in LABELS)
+    label_filter=lambda b: b.split(".")[0] in LABELS, extra=sched.family_extra("C12", "zset"))
